@@ -38,7 +38,7 @@ func c15Oracle(log []stream.Out, want stream.Bag) (fp, what string, got stream.B
 
 func init() {
 	register("C15", "model_checking", func(r *findings.Run) {
-		L := r.Pick(4, 5)
+		L := r.Pick(5, 6)
 		specs := singleInputNodes()
 		// two input alphabets: zero event times without watermarks (pure changelog), and event times {1,2} with watermarks
 		optsA := changelogOpts(L, []int{0}, false)
@@ -113,6 +113,23 @@ func init() {
 			for _, l := range js {
 				for _, rr := range js {
 					jjobs = append(jjobs, jjob{k, l, rr})
+				}
+			}
+		}
+		// asymmetric families: a longer one-key changelog (insert / retract / re-insert ...) against at most one
+		// event on the other input, in both roles; once with zero event times (processed on arrival) and once with
+		// event times {1,2} where a retraction may carry a later event time than its insert (buffered until the end)
+		for _, times := range [][]int{{0}, {1, 2}} {
+			long := stream.GenScripts(stream.ScriptOpts{Keys: []int{1}, Payloads: []int{1, 2}, Times: times, MaxLen: r.Pick(3, 4), Retractions: true})
+			short := stream.GenScripts(stream.ScriptOpts{Keys: []int{1}, Payloads: []int{1}, Times: times, MaxLen: 1})
+			for _, k := range joinKinds {
+				for _, l := range long {
+					if len(l) < 3 {
+						continue
+					}
+					for _, s := range short {
+						jjobs = append(jjobs, jjob{k, l, s}, jjob{k, s, l})
+					}
 				}
 			}
 		}
